@@ -106,7 +106,7 @@ class Spec:
                         v = self.expr(s[2], fr)
                     fr["locs"].append(v)
             v = fr["locs"][-1]
-            if c["cached"] and v is None and not c["allow_none"]:
+            if v is None and not c["allow_none"]:      # cached or not (fix 008a3ab)
                 fr["line"] = 0
                 raise Raised("none")
         except Raised as r:
